@@ -36,7 +36,8 @@ the spare capacity of a caller's slice); the only write to an existing array is 
 one of its buffers points to -/
 theorem sdk_only_allocates (w : World) (hi : Inv w) (op : AOp) :
     (∃ xs, (step cur lim w op).heap = w.heap ++ xs) ∨
-    (∃ b i kv, op = .wr b i kv ∧ ∃ sl ∈ w.bufs, ∃ v, (step cur lim w op).heap = w.heap.set sl.arr v) := by
+    (∃ b i kv, op = .wr b i kv ∧ ∃ sl ∈ w.bufs,
+      (step cur lim w op).heap = w.heap.set sl.arr ((arrOf w.heap sl.arr).set i kv)) := by
   cases op with
   | mk kvs spare => exact Or.inl ⟨_, rfl⟩
   | wr b i kv =>
@@ -45,7 +46,7 @@ theorem sdk_only_allocates (w : World) (hi : Inv w) (op : AOp) :
     · exact Or.inl ⟨[], by simp⟩
     · rename_i sl hs
       split
-      · exact Or.inr ⟨b, i, kv, rfl, sl, List.mem_of_getElem? hs, _, rfl⟩
+      · exact Or.inr ⟨b, i, kv, rfl, sl, List.mem_of_getElem? hs, rfl⟩
       · exact Or.inl ⟨[], by simp⟩
   | start name attrBufs links =>
     obtain ⟨⟨xs, hxs⟩, _⟩ := startLinks_ok lim w hi links (w.heap, { base := C04.init name }) [] (by simp) ⟨by simp, by simp⟩
@@ -110,7 +111,7 @@ theorem sdk_only_allocates (w : World) (hi : Inv w) (op : AOp) :
 
 private theorem owned_read_stable (w : World) (hi : Inv w) (op : AOp) (sl : Slice) (hk : evOK w.heap w.bufs sl) :
     read (step cur lim w op).heap sl = read w.heap sl := by
-  rcases sdk_only_allocates (lim := lim) w hi op with ⟨xs, hx⟩ | ⟨_, _, _, _, b, hb, v, hx⟩
+  rcases sdk_only_allocates (lim := lim) w hi op with ⟨xs, hx⟩ | ⟨_, _, _, _, b, hb, hx⟩
   · rw [hx]; exact read_append _ _ _ (evOK_readable _ _ _ hk)
   · rw [hx]
     rcases hk with h0 | ⟨_, h2⟩
@@ -120,7 +121,7 @@ private theorem owned_read_stable (w : World) (hi : Inv w) (op : AOp) (sl : Slic
 private theorem events_read_stable (w : World) (hi : Inv w) (op : AOp) (s : RSpan) (hk : SpanOK w.heap w.bufs s) :
     ∀ e ∈ s.events.queue, read (step cur lim w op).heap e.attrs = read w.heap e.attrs := by
   intro e he
-  rcases sdk_only_allocates (lim := lim) w hi op with ⟨xs, hx⟩ | ⟨_, _, _, _, sl, hsl, v, hx⟩
+  rcases sdk_only_allocates (lim := lim) w hi op with ⟨xs, hx⟩ | ⟨_, _, _, _, sl, hsl, hx⟩
   · rw [hx]
     rcases hk.ev e he with h0 | ⟨h1, _⟩
     · exact read_append _ _ _ (Or.inl h0)
@@ -181,62 +182,275 @@ theorem exported_snapshot_stable (w : World) (hr : Reachable lim w) (op : AOp) (
     rw [hev, hl]
     simp [view]
 
+/-- the same for spans that have not ended: what a reader of ANY span record sees is unchanged by the heap effects of any
+operation (the operation's own effect on its target span is `call_copies_arguments`) -/
+theorem live_span_stable (w : World) (hr : Reachable lim w) (op : AOp) (s : RSpan) (hs : s ∈ w.spans) :
+    view (step cur lim w op).heap s = view w.heap s := by
+  have hi := inv_reachable lim w hr
+  have hk := hi.spans s hs
+  have hev := view_events_congr w.heap (step cur lim w op).heap s (events_read_stable w hi op s hk)
+  have hl : (view (step cur lim w op).heap s).links = (view w.heap s).links :=
+    view_links_congr _ _ _ fun l hl => owned_read_stable w hi op _ (hk.ln l hl)
+  simp only [view] at hev hl ⊢
+  rw [hev, hl]
+
 /-- every script leads to a reachable world -/
 theorem run_reachable (w : World) (hr : Reachable lim w) (ops : List AOp) : Reachable lim (run cur lim w ops) := by
   induction ops generalizing w with
   | nil => exact hr
   | cons op rest ih => exact ih _ (Reachable.step op hr)
 
-/-- **argument values are copied at the call** (AddEvent, any number of WithAttributes options sharing any caller
-slices): the span a reader sees after the call is C04's sequential step applied to what a reader saw before, with the
-option slices resolved to the values they held AT THE CALL -/
-theorem call_copies_arguments (w : World) (hr : Reachable lim w) (i : Nat) (name : Bytes) (bufs : List Nat) (s : RSpan)
-    (hs : w.spans[i]? = some s) :
-    ∃ s', (step cur lim w (.addEvent i name bufs)).spans[i]? = some s' ∧
-      view (step cur lim w (.addEvent i name bufs)).heap s' =
-        C04.step lim (view w.heap s) (.addEvent name (bufs.flatMap fun b => read w.heap (bufOf w b))) := by
-  have hi := inv_reachable lim w hr
-  have hk := hi.spans s (List.mem_of_getElem? hs)
-  have hlt : i < w.spans.length := by
-    rcases Nat.lt_or_ge i w.spans.length with h | h
-    · exact h
-    · rw [List.getElem?_eq_none h] at hs; cases hs
-  simp only [step, hs, cur_ae]
-  by_cases hend : s.base.ended = true
-  · simp only [hend, if_true]
-    refine ⟨s, hs, ?_⟩
-    simp [C04.step, view, hend]
-  · simp only [hend, if_false, Bool.false_eq_true]
-    have ho : ∀ o ∈ bufs.map (bufOf w), readable w.heap o := by
-      intro o hom
-      obtain ⟨b, _, rfl⟩ := List.mem_map.mp hom
-      exact bufOf_readable w hi b
-    have hc := newEventConfig_copies w.heap (bufs.map (bufOf w)) ho
-    obtain ⟨xs, hxs⟩ := hc.ext
-    refine ⟨(addEvent applyEvent lim w.heap s name (bufs.map (bufOf w))).2, by simp [setSpan, hlt], ?_⟩
-    have hval : (bufs.map (bufOf w)).flatMap (read w.heap) = bufs.flatMap fun b => read w.heap (bufOf w b) := by
-      simp [List.flatMap_map]
-    have hcap := capSlice_read (newEventConfig applyEvent w.heap (bufs.map (bufOf w))).1 lim.perEvent
-      (newEventConfig applyEvent w.heap (bufs.map (bufOf w))).2 (by rw [hc.val]; exact hc.vlen)
-    rw [hc.val, hval] at hcap
-    have hE : ∀ e ∈ s.events.queue, derefE (newEventConfig applyEvent w.heap (bufs.map (bufOf w))).1 e = derefE w.heap e := by
-      intro e he
-      simp only [derefE]
-      rw [hxs]
-      rcases hk.ev e he with h0 | ⟨h1, _⟩
-      · rw [read_append _ _ _ (Or.inl h0)]
-      · rw [read_append _ _ _ (Or.inr h1)]
-    have hL : ∀ l ∈ s.links.queue, derefL (newEventConfig applyEvent w.heap (bufs.map (bufOf w))).1 l = derefL w.heap l := by
-      intro l hl
-      simp only [derefL]
-      rw [hxs, read_append _ _ _ (evOK_readable _ _ _ (hk.ln l hl))]
-    simp only [setSpan, addEvent, view, C04.step]
-    have hend' : s.base.ended = false := by simpa using hend
-    simp only [hend', Bool.false_eq_true, if_false]
-    rw [add_map (derefE (newEventConfig applyEvent w.heap (bufs.map (bufOf w))).1)]
-    rw [List.map_congr_left hE, List.map_congr_left hL]
-    simp only [derefE, mkEvent, hcap.1, hcap.2]
+/-! ### caller buffers stay well-formed (length ≤ backing array) -/
 
+/-- every caller slice lies inside its backing array -/
+def BufWF (w : World) : Prop := ∀ b ∈ w.bufs, b.arr < w.heap.length ∧ b.len ≤ (arrOf w.heap b.arr).length
+
+private theorem step_bufs (w : World) (op : AOp) :
+    (step cur lim w op).bufs = w.bufs ∨ ∃ kvs spare, op = .mk kvs spare := by
+  cases op with
+  | mk kvs spare => exact Or.inr ⟨kvs, spare, rfl⟩
+  | wr b i kv => left; simp only [step]; split; rfl; split <;> rfl
+  | start _ _ _ => left; rfl
+  | setAttrs _ _ => left; simp only [step]; split <;> rfl
+  | addEvent _ _ _ => left; simp only [step]; split; rfl; split <;> rfl
+  | recordError _ _ _ => left; simp only [step]; split; rfl; rfl; split <;> rfl
+  | addLink _ _ _ => left; simp only [step]; split <;> rfl
+  | plain _ _ => left; simp only [step]; split; rfl; split <;> rfl
+  | end_ _ => left; simp only [step]; split; rfl; split <;> rfl
+
+private theorem arrOf_append (h xs : Heap) (a : Nat) (ha : a < h.length) : arrOf (h ++ xs) a = arrOf h a := by
+  simp [arrOf, List.getElem?_append_left ha]
+
+theorem bufwf_step (w : World) (hi : Inv w) (hw : BufWF w) (op : AOp) : BufWF (step cur lim w op) := by
+  rcases step_bufs (lim := lim) w op with hb | ⟨kvs, spare, rfl⟩
+  · intro b hbm
+    rw [hb] at hbm
+    obtain ⟨h1, h2⟩ := hw b hbm
+    rcases sdk_only_allocates (lim := lim) w hi op with ⟨xs, hx⟩ | ⟨_, i, kv, _, sl, _, hx⟩
+    · rw [hx]; exact ⟨by simp; omega, by rw [arrOf_append _ _ _ h1]; exact h2⟩
+    · rw [hx]
+      refine ⟨by simpa using h1, ?_⟩
+      by_cases he : b.arr = sl.arr
+      · simp only [arrOf, he]
+        rw [List.getElem?_set_self (by rw [← he]; exact h1)]
+        simp only [Option.getD_some, List.length_set]
+        have := h2; simp only [arrOf, he] at this; exact this
+      · simp only [arrOf]
+        rw [List.getElem?_set_ne (Ne.symm he)]
+        exact h2
+  · intro b hbm
+    simp only [step] at hbm ⊢
+    rcases List.mem_append.mp hbm with hbm | hbm
+    · obtain ⟨h1, h2⟩ := hw b hbm
+      exact ⟨by simp; omega, by rw [arrOf_append _ _ _ h1]; exact h2⟩
+    · simp only [List.mem_singleton] at hbm
+      subst hbm
+      refine ⟨by simp, ?_⟩
+      simp [arrOf]
+
+theorem bufwf_reachable (w : World) (hr : Reachable lim w) : BufWF w := by
+  induction hr with
+  | init => intro b hb; simp at hb
+  | step op hr' ih => exact bufwf_step _ (inv_reachable lim _ hr') ih op
+
+private theorem read_len (w : World) (hw : BufWF w) (sl : Slice) (hs : sl ∈ w.bufs ∨ sl.len = 0) :
+    (read w.heap sl).length = sl.len := by
+  rcases hs with hs | h0
+  · have := (hw sl hs).2
+    simp only [read, List.length_take]; omega
+  · simp [read, h0]
+
+private theorem bufOf_mem (w : World) (b : Nat) : bufOf w b ∈ w.bufs ∨ (bufOf w b).len = 0 := by
+  unfold bufOf
+  cases hb : w.bufs[b]? with
+  | none => exact Or.inr rfl
+  | some sl => exact Or.inl (List.mem_of_getElem? hb)
+
+/-- the C04 operation an API call on span `i` amounts to, its slice arguments resolved to the values they hold AT THE CALL -/
+def resolve (w : World) : AOp → Option (Nat × Op)
+  | .setAttrs i b => some (i, .setAttrs (read w.heap (bufOf w b)))
+  | .addEvent i name bufs => some (i, .addEvent name (bufs.flatMap fun b => read w.heap (bufOf w b)))
+  | .recordError i err bufs => some (i, .recordError err (bufs.flatMap fun b => read w.heap (bufOf w b)))
+  | .addLink i sc b => some (i, .addLink sc (read w.heap (optBuf w b)))
+  | .plain i op => if isPlain op then some (i, op) else none
+  | .end_ i => some (i, .end_)
+  | _ => none
+
+private theorem flatMap_congr' {α β : Type} (l : List α) (f g : α → List β) (h : ∀ a ∈ l, f a = g a) :
+    l.flatMap f = l.flatMap g := by
+  induction l with
+  | nil => rfl
+  | cons a tl ih =>
+    simp only [List.flatMap_cons]
+    rw [h a (by simp), ih (fun x hx => h x (by simp [hx]))]
+
+private theorem spans_lt (w : World) (i : Nat) (s : RSpan) (hs : w.spans[i]? = some s) : i < w.spans.length := by
+  rcases Nat.lt_or_ge i w.spans.length with h | h
+  · exact h
+  · rw [List.getElem?_eq_none h] at hs; cases hs
+
+/-- **argument values are copied at the call** — SetAttributes, AddEvent (any number of WithAttributes options),
+RecordError, AddLink, SetStatus/SetName, End, with any sharing of caller slices between options, calls and spans: the span
+a reader sees after the call is C04's sequential step applied to what a reader saw before, with every slice argument
+resolved to the values it held AT THE CALL (`resolve`). Together with `exported_snapshot_stable` (and its analogue for
+live spans, `live_span_stable`): nothing that happens to the caller's memory afterwards matters. -/
+theorem call_copies_arguments (w : World) (hr : Reachable lim w) (op : AOp) (i : Nat) (cop : Op) (s : RSpan)
+    (hres : resolve w op = some (i, cop)) (hs : w.spans[i]? = some s) :
+    ∃ s', (step cur lim w op).spans[i]? = some s' ∧
+      view (step cur lim w op).heap s' = C04.step lim (view w.heap s) cop := by
+  have hi := inv_reachable lim w hr
+  have hw := bufwf_reachable w hr
+  have hk := hi.spans s (List.mem_of_getElem? hs)
+  have hlt := spans_lt w i s hs
+  cases op with
+  | mk _ _ => simp [resolve] at hres
+  | wr _ _ _ => simp [resolve] at hres
+  | start _ _ _ => simp [resolve] at hres
+  | setAttrs j b =>
+    simp only [resolve, Option.some.injEq, Prod.mk.injEq] at hres
+    obtain ⟨rfl, rfl⟩ := hres
+    simp only [step, hs]
+    exact ⟨_, by simp [setSpan, hlt], view_base_step lim _ s _ rfl⟩
+  | plain j o =>
+    simp only [resolve] at hres
+    split at hres
+    · rename_i hp
+      simp only [Option.some.injEq, Prod.mk.injEq] at hres
+      obtain ⟨rfl, rfl⟩ := hres
+      simp only [step, hs, hp, if_true]
+      refine ⟨_, by simp [setSpan, hlt], view_base_step lim _ s _ ?_⟩
+      cases o <;> simp_all [isPlain, isBaseOp]
+    · cases hres
+  | end_ j =>
+    simp only [resolve, Option.some.injEq, Prod.mk.injEq] at hres
+    obtain ⟨rfl, rfl⟩ := hres
+    simp only [step, hs]
+    by_cases hend : s.base.ended = true
+    · simp only [hend, if_true]
+      exact ⟨s, hs, by simp [C04.step, view, hend]⟩
+    · simp only [hend, if_false, Bool.false_eq_true]
+      exact ⟨_, by simp [setSpan, hlt], view_base_step lim _ s _ rfl⟩
+  | addLink j sc b =>
+    simp only [resolve, Option.some.injEq, Prod.mk.injEq] at hres
+    obtain ⟨rfl, rfl⟩ := hres
+    simp only [step, hs, cur_lk]
+    refine ⟨(addLink cloneLink lim w.heap s sc (optBuf w b)).2, by simp [setSpan, hlt], ?_⟩
+    simp only [setSpan]
+    apply addLink_view lim w.heap w.bufs s sc _ hi.bufs hk
+    cases b with
+    | none => simp [optBuf, read, Slice.nil]
+    | some b => exact read_len w hw _ (bufOf_mem w b)
+  | addEvent j name bufs =>
+    simp only [resolve, Option.some.injEq, Prod.mk.injEq] at hres
+    obtain ⟨rfl, rfl⟩ := hres
+    simp only [step, hs, cur_ae]
+    by_cases hend : s.base.ended = true
+    · simp only [hend, if_true]
+      exact ⟨s, hs, by simp [C04.step, view, hend]⟩
+    · simp only [hend, if_false, Bool.false_eq_true]
+      have ho : ∀ o ∈ bufs.map (bufOf w), readable w.heap o := by
+        intro o hom
+        obtain ⟨b, _, rfl⟩ := List.mem_map.mp hom
+        exact bufOf_readable w hi b
+      refine ⟨(addEvent applyEvent lim w.heap s name (bufs.map (bufOf w))).2, by simp [setSpan, hlt], ?_⟩
+      simp only [setSpan]
+      rw [addEvent_view lim w.heap w.bufs s name _ ho hk]
+      have hend' : s.base.ended = false := by simpa using hend
+      have hv : (view w.heap s).ended = false := hend'
+      simp [C04.step, hv, List.flatMap_map]
+  | recordError j err bufs =>
+    simp only [resolve, Option.some.injEq, Prod.mk.injEq] at hres
+    obtain ⟨rfl, rfl⟩ := hres
+    simp only [step, hs, cur_ae]
+    cases err with
+    | none => exact ⟨s, hs, by simp [C04.step]⟩
+    | some tm =>
+      obtain ⟨typ, msg⟩ := tm
+      simp only
+      by_cases hend : s.base.ended = true
+      · simp only [hend, if_true]
+        exact ⟨s, hs, by simp [C04.step, view, hend]⟩
+      · simp only [hend, if_false, Bool.false_eq_true]
+        let exc : List KV := [⟨excTypeKey, .str typ⟩, ⟨excMsgKey, .str msg⟩]
+        let h1 := w.heap ++ [exc]
+        let excS : Slice := ⟨w.heap.length, 2, 2⟩
+        let opts := bufs.map (bufOf w) ++ [excS]
+        have ho1 : ∀ o ∈ opts, readable h1 o := by
+          intro o hom
+          rcases List.mem_append.mp hom with hom | hom
+          · obtain ⟨b, _, rfl⟩ := List.mem_map.mp hom
+            exact readable_append _ _ _ (bufOf_readable w hi b)
+          · simp only [List.mem_singleton] at hom; subst hom; exact Or.inr (by simp [h1, excS])
+        obtain ⟨xs, hxs⟩ := (newEventConfig_copies h1 opts ho1).ext
+        have ho2 : ∀ o ∈ opts, readable (h1 ++ xs) o := fun o hom => readable_append _ _ _ (ho1 o hom)
+        have hk2 : SpanOK (h1 ++ xs) w.bufs s := spanOK_append _ _ _ _ (spanOK_append _ _ _ _ hk)
+        refine ⟨(addEvent applyEvent lim (newEventConfig applyEvent h1 opts).1 s excName opts).2, by simp [setSpan, hlt, h1, opts, excS, exc], ?_⟩
+        simp only [setSpan]
+        show view (addEvent applyEvent lim (newEventConfig applyEvent h1 opts).1 s excName opts).1
+              (addEvent applyEvent lim (newEventConfig applyEvent h1 opts).1 s excName opts).2 = _
+        rw [hxs, addEvent_view lim (h1 ++ xs) w.bufs s excName opts ho2 hk2]
+        have hv : view (h1 ++ xs) s = view w.heap s := by
+          rw [view_append _ xs _ s (spanOK_append _ _ _ _ hk)]; exact view_append _ _ _ s hk
+        rw [hv]
+        have hvals : opts.flatMap (read (h1 ++ xs)) =
+            errorAttrs typ msg (bufs.flatMap fun b => read w.heap (bufOf w b)) := by
+          simp only [opts, List.flatMap_append, List.flatMap_map, List.flatMap_cons, List.flatMap_nil, List.append_nil,
+            errorAttrs]
+          congr 1
+          · apply flatMap_congr'
+            intro b _
+            rw [read_append _ xs _ (readable_append _ _ _ (bufOf_readable w hi b)),
+                read_append _ _ _ (bufOf_readable w hi b)]
+          · rw [read_append _ xs _ (Or.inr (by simp [h1, excS]))]
+            simp [read, arrOf, h1, excS, exc]
+        rw [hvals]
+        have hend' : (view w.heap s).ended = false := by simpa [view] using hend
+        simp [C04.step, hend']
+
+private theorem startLinks_view (w : World) (hi : Inv w) (hw : BufWF w) :
+    ∀ (ls : List (SC × Option Nat)) (p : Heap × RSpan) (xs0 : Heap), p.1 = w.heap ++ xs0 → SpanOK p.1 w.bufs p.2 →
+      view (ls.foldl (fun (hs : Heap × RSpan) l => addLink cloneLink lim hs.1 hs.2 l.1 (optBuf w l.2)) p).1
+           (ls.foldl (fun (hs : Heap × RSpan) l => addLink cloneLink lim hs.1 hs.2 l.1 (optBuf w l.2)) p).2 =
+        C04.run lim (view p.1 p.2) (ls.map fun l => Op.addLink l.1 (read w.heap (optBuf w l.2))) := by
+  intro ls
+  induction ls with
+  | nil => intro p xs0 _ _; rfl
+  | cons l rest ih =>
+    intro p xs0 e0 k0
+    have hb0 : ∀ b ∈ w.bufs, b.arr < p.1.length := by
+      intro b hb; have := hi.bufs b hb; rw [e0]; simp; omega
+    have hrd : read p.1 (optBuf w l.2) = read w.heap (optBuf w l.2) := by
+      rw [e0]; exact read_append _ _ _ (optBuf_readable w hi l.2)
+    have hlen : (read p.1 (optBuf w l.2)).length = (optBuf w l.2).len := by
+      rw [hrd]
+      cases l.2 with
+      | none => simp [optBuf, read, Slice.nil]
+      | some b => exact read_len w hw _ (bufOf_mem w b)
+    obtain ⟨⟨ys, hys⟩, k1⟩ := addLink_ok lim p.1 w.bufs p.2 l.1 (optBuf w l.2) hb0 k0
+    simp only [List.foldl_cons, List.map_cons, C04.run]
+    rw [ih (addLink cloneLink lim p.1 p.2 l.1 (optBuf w l.2)) (xs0 ++ ys) (by rw [hys, e0, List.append_assoc]) k1,
+        addLink_view lim p.1 w.bufs p.2 l.1 _ hb0 k0 hlen, hrd]
+    rfl
+
+/-- **Start copies its arguments**: the span `Start(name, WithLinks(…), WithAttributes(…)…)` creates is, for a reader,
+C04's run of the links (AddLink each, in order) and then ONE SetAttributes with the concatenated start attributes — all
+slices resolved to the values they held at the call -/
+theorem start_copies_arguments (w : World) (hr : Reachable lim w) (name : Bytes) (attrBufs : List Nat)
+    (links : List (SC × Option Nat)) :
+    ∃ s', (step cur lim w (.start name attrBufs links)).spans = w.spans ++ [s'] ∧
+      view (step cur lim w (.start name attrBufs links)).heap s' =
+        C04.run lim (C04.init name)
+          ((links.map fun l => Op.addLink l.1 (read w.heap (optBuf w l.2))) ++
+           [Op.setAttrs (attrBufs.flatMap fun b => read w.heap (bufOf w b))]) := by
+  have hi := inv_reachable lim w hr
+  have hw := bufwf_reachable w hr
+  refine ⟨_, rfl, ?_⟩
+  simp only [step, cur_lk]
+  have h0 : SpanOK w.heap w.bufs ({ base := C04.init name } : RSpan) := ⟨by simp, by simp⟩
+  have hv := startLinks_view (lim := lim) w hi hw links (w.heap, { base := C04.init name }) [] (by simp) h0
+  rw [view_base_step lim _ _ _ rfl, hv]
+  simp only [C04.run, List.foldl_append, List.foldl_cons, List.foldl_nil]
+  rfl
 
 /-- non-vacuity: two options naming the same caller slice, which has spare capacity -/
 example : (view (run cur ⟨-1, -1, -1, -1, -1, -1⟩ {}
@@ -244,6 +458,30 @@ example : (view (run cur ⟨-1, -1, -1, -1, -1, -1⟩ {}
     ((run cur ⟨-1, -1, -1, -1, -1, -1⟩ {}
       [.mk [⟨[0x61], .int 1⟩] 4, .start [0x6f] [] [], .addEvent 0 [0x65] [0, 0]]).spans[0]?.getD { base := C04.init [] })).events.queue
     = [⟨[0x65], [⟨[0x61], .int 1⟩, ⟨[0x61], .int 1⟩], 0⟩] := by decide
+
+/-- **`append(s[:len(s):len(s)], x…)` never writes the array of `s`** — the idiom of fix 30d2a20 (finding F45: RecordError
+appended its exception option to the caller's variadic option slice in place) and of `slices.Clone` (`append(s[:0:0], s...)`,
+fix 48fa451): a slice whose capacity equals its length is extended by ALLOCATING, whatever the array holds beyond it;
+the old heap is a prefix of the new one. (Stated on this heap's element type; Go's append does not depend on it. Option
+slices `[]EventOption` themselves are not objects of this heap — see checks/C10.json assumptions — so for F45 this lemma
+plus the `optsrace` observation leg is the coverage.) -/
+theorem full_slice_append_allocates (h : Heap) (dst : Slice) (vals : List KV) (ht : dst.cap = dst.len) (hv : vals ≠ []) :
+    (goAppend h dst vals).1 = h ++ [read h dst ++ vals] ∧ (goAppend h dst vals).2.arr = h.length := by
+  unfold goAppend
+  have h1 : vals.isEmpty = false := by cases vals <;> simp_all
+  have h2 : ¬ (dst.len + vals.length ≤ dst.cap) := by
+    have : 0 < vals.length := List.length_pos_iff.mpr hv
+    omega
+  simp [h1, h2]
+
+/-- … whereas with spare capacity the same append writes the shared array in place (the heap keeps its length): what
+RecordError did to the caller's option slice before 30d2a20 and what `applyEventAliased` does to attribute slices -/
+theorem spare_capacity_append_writes_in_place (h : Heap) (dst : Slice) (vals : List KV) (hv : vals ≠ [])
+    (hs : dst.len + vals.length ≤ dst.cap) :
+    (goAppend h dst vals).1.length = h.length ∧ (goAppend h dst vals).2.arr = dst.arr := by
+  unfold goAppend
+  have h1 : vals.isEmpty = false := by cases vals <;> simp_all
+  simp [h1, hs]
 
 /-! ### witnesses -/
 
